@@ -20,6 +20,7 @@ pub enum T {
     Field(Box<T>),
     Proj(Box<T>),
     Method(Box<T>, Box<T>),
+    Call0(Box<T>),
 }
 
 pub const BINOPS: [(&str, u8); 12] =
@@ -64,6 +65,11 @@ pub fn toks(t: &T, ctx: u8, full: bool, out: &mut Vec<String>) {
             toks(a, 0, full, out);
             out.push(")".into());
         }
+        T::Call0(f) => {
+            toks(f, P_POSTFIX, full, out);
+            out.push("(".into());
+            out.push(")".into());
+        }
         T::Field(e) => {
             toks(e, P_POSTFIX, full, out);
             out.push(".".into());
@@ -95,6 +101,7 @@ pub fn sexpr_model(t: &T) -> String {
         T::Bin(op, l, r) => format!("({} {} {})", op, sexpr_model(l), sexpr_model(r)),
         T::Un(op, e) => format!("({} {})", op, sexpr_model(e)),
         T::Call(f, a) => format!("(call {} {})", sexpr_model(f), sexpr_model(a)),
+        T::Call0(f) => format!("(call {} )", sexpr_model(f)),
         T::Field(e) => format!("(field {} fld)", sexpr_model(e)),
         T::Proj(e) => format!("(proj {} 0)", sexpr_model(e)),
         T::Method(e, a) => format!("(call (field {} mth) {})", sexpr_model(e), sexpr_model(a)),
@@ -216,7 +223,7 @@ fn wrap(expr: &str) -> String {
 pub const ATOMS: [&str; 3] = ["a", "b", "c"];
 
 /// node kinds: 12 binary + 2 unary + 4 postfix
-const NKINDS: usize = 18;
+const NKINDS: usize = 19;
 
 /// all trees with exactly `n` operator nodes; atoms are assigned a, b, c… left to right
 fn trees(n: usize) -> Vec<T> {
@@ -256,7 +263,13 @@ fn trees(n: usize) -> Vec<T> {
                 }
             } else {
                 for e in go(n - 1) {
-                    out.push(if k == 15 { T::Field(Box::new(e)) } else { T::Proj(Box::new(e)) });
+                    out.push(if k == 15 {
+                        T::Field(Box::new(e))
+                    } else if k == 16 {
+                        T::Proj(Box::new(e))
+                    } else {
+                        T::Call0(Box::new(e))
+                    });
                 }
             }
         }
@@ -273,7 +286,7 @@ fn trees(n: usize) -> Vec<T> {
                 name_atoms(l, next);
                 name_atoms(r, next);
             }
-            T::Un(_, e) | T::Field(e) | T::Proj(e) => name_atoms(e, next),
+            T::Un(_, e) | T::Field(e) | T::Proj(e) | T::Call0(e) => name_atoms(e, next),
         }
     }
     let mut v = go(n);
@@ -404,6 +417,7 @@ fn shape(t: &T) -> String {
         T::Bin(op, l, r) => format!("({} {} {})", op, shape(l), shape(r)),
         T::Un(op, e) => format!("(u{} {})", op, shape(e)),
         T::Call(f, a) => format!("(call {} {})", shape(f), shape(a)),
+        T::Call0(e) => format!("(call0 {})", shape(e)),
         T::Field(e) => format!("(fld {})", shape(e)),
         T::Proj(e) => format!("(prj {})", shape(e)),
         T::Method(e, a) => format!("(mth {} {})", shape(e), shape(a)),
